@@ -5,6 +5,7 @@ import (
 	"go/ast"
 	"go/token"
 	"go/types"
+	"golang.org/x/tools/go/ssa"
 	"strings"
 )
 
@@ -173,24 +174,85 @@ func RunLocaPair(w *World, r *Report) {
 		return
 	}
 	key2 := r.MkKey("prefixsum", fnName(encFn), "offsets")
-	body, _ := funcBody(encFn)
+	// offs[i+1] = offs[i] + gg[i].encodeLen() for the loop counter i, and the glyphs are appended
+	// from the same list; decided on the SSA form, so neither names nor the kind of loop matter
 	okSum, okAppend := false, false
-	ast.Inspect(body, func(n ast.Node) bool {
-		rs, ok := n.(*ast.RangeStmt)
-		if !ok {
-			return true
+	var ggParam ssa.Value
+	if len(encFn.Params) > 0 {
+		ggParam = encFn.Params[0]
+	}
+	elemOfGG := func(v ssa.Value) (ssa.Value, bool) { // v = gg[idx] (a load) -> idx
+		for d := 0; d < 4; d++ {
+			switch x := v.(type) {
+			case *ssa.UnOp:
+				if x.Op == token.MUL {
+					if ia, ok := x.X.(*ssa.IndexAddr); ok && ia.X == ggParam {
+						return ia.Index, true
+					}
+					v = x.X
+					continue
+				}
+			case *ssa.MakeInterface:
+				v = x.X
+				continue
+			case *ssa.IndexAddr:
+				if x.X == ggParam {
+					return x.Index, true
+				}
+			}
+			return nil, false
 		}
-		txt := nodeText(w, rs)
-		if strings.Contains(txt, ".encodeLen()") && strings.Contains(txt, "[i+1] =") && strings.Contains(txt, "[i] +") {
-			okSum = true
+		return nil, false
+	}
+	for _, b := range encFn.Blocks {
+		for _, in := range b.Instrs {
+			switch x := in.(type) {
+			case *ssa.Store:
+				dst, ok := x.Addr.(*ssa.IndexAddr)
+				if !ok {
+					continue
+				}
+				next, ok := dst.Index.(*ssa.BinOp)
+				if !ok || next.Op != token.ADD {
+					continue
+				}
+				one, isC := bconstInt(next.Y)
+				if !isC || one != 1 {
+					continue
+				}
+				i := next.X
+				sum, ok := x.Val.(*ssa.BinOp)
+				if !ok || sum.Op != token.ADD {
+					continue
+				}
+				for _, pair := range [][2]ssa.Value{{sum.X, sum.Y}, {sum.Y, sum.X}} {
+					ld, ok := pair[0].(*ssa.UnOp)
+					if !ok || ld.Op != token.MUL {
+						continue
+					}
+					src, ok := ld.X.(*ssa.IndexAddr)
+					if !ok || src.Index != i || !sameSliceValue(src.X, dst.X) {
+						continue
+					}
+					c, ok := pair[1].(*ssa.Call)
+					if !ok || c.Call.StaticCallee() == nil || c.Call.StaticCallee().Name() != "encodeLen" || len(c.Call.Args) == 0 {
+						continue
+					}
+					if idx, ok := elemOfGG(c.Call.Args[0]); ok && idx == i {
+						okSum = true
+					}
+				}
+			case *ssa.Call:
+				if callee := x.Call.StaticCallee(); callee != nil && callee.Name() == "append" && callee.Signature.Recv() != nil && len(x.Call.Args) > 0 {
+					if _, ok := elemOfGG(x.Call.Args[0]); ok {
+						okAppend = true
+					}
+				}
+			}
 		}
-		if strings.Contains(txt, ".append(") {
-			okAppend = true
-		}
-		return true
-	})
+	}
 	if okSum && okAppend {
-		r.OK("prefixsum", key2, w.Pos(encFn.Pos()), "offs[i+1] = offs[i] + g.encodeLen(); glyphs appended in the same range order")
+		r.OK("prefixsum", key2, w.Pos(encFn.Pos()), "offs[i+1] = offs[i] + gg[i].encodeLen(); the glyphs of the same list are appended")
 	} else {
 		r.Fail("prefixsum", key2, w.Pos(encFn.Pos()), "Glyphs.Encode no longer builds loca offsets as prefix sums of encodeLen() of the glyphs it appends", nil)
 	}
